@@ -817,6 +817,27 @@ pub proof fn thm_invalid_sum_has_culprit<C: Ciphersuite>(sp: SigningPackage<C>, 
     }
 }
 
+// C04, last sentence: altered shares whose errors cancel (the submitted shares sum to what the honest shares sum to) can at most
+// yield a valid signature -- aggregation then returns exactly the signature the honest shares would have produced
+//@serves C04
+pub proof fn thm_cancelling_errors_yield_valid_signature<C: Ciphersuite>(res: Result<Signature<C>, Error<C>>, sp: SigningPackage<C>, shares: ShareMap<C>, hon: ShareMap<C>,
+        pk: PublicKeyPackage<C>, detect: bool, first: bool, a: Seq<Scalar<C>>, nonce: spec_fn(Identifier<C>) -> (Scalar<C>, Scalar<C>))
+    requires sp.signing_commitments@.dom().finite(),
+        honest_keys::<C>(a, pk.verifying_key.element.0, pk.verifying_shares@, sp.signing_commitments@.dom()), a.len() <= sp.signing_commitments@.dom().len(),
+        honest_commitments::<C>(sp, nonce), shares.dom() == sp.signing_commitments@.dom(), hon.dom() == sp.signing_commitments@.dom(),
+        forall|id: Identifier<C>| #[trigger] sp.signing_commitments@.contains_key(id) ==> hon[id].share.0 == honest_share::<C>(sp, pk.verifying_key.element.0, a, nonce, id),
+        agg_sig::<C>(sp, shares, pk.verifying_key.element.0).z == agg_sig::<C>(sp, hon, pk.verifying_key.element.0).z,
+        sp_R::<C>(sp, pk.verifying_key.element.0) != e0::<C>(),
+        agg_guard_err::<C>(sp, shares, pk, detect) is None,
+        agg_result_is::<C>(res, sp, shares, pk, detect, first),
+    ensures res == Ok::<Signature<C>, Error<C>>(agg_sig::<C>(sp, hon, pk.verifying_key.element.0)),
+        spec_verify::<C>(pk.verifying_key, sp.message@, res->Ok_0) == Ok::<(), Error<C>>(()),
+{
+    let vk = pk.verifying_key.element.0;
+    thm_honest_sum_verifies::<C>(sp, pk.verifying_key, a, pk.verifying_shares@, nonce, hon);
+    assert(agg_sig::<C>(sp, shares, vk) == agg_sig::<C>(sp, hon, vk));
+}
+
 // C04 put together for the detecting modes: honest keys, honest commitments, >= t participants, arbitrary shares.  If aggregation fails
 // then it names somebody, everybody it names submitted a share different from the honest one, first-cheater mode names the lowest
 // such identifier and all-cheaters mode names exactly the set of them.
